@@ -37,6 +37,8 @@ def _worker(args):
     t0 = time.time()
     try:
         os.environ["VERIF_IN_WORKER"] = "1"
+        import logging
+        logging.disable(logging.CRITICAL)
         import resource
         try:
             resource.setrlimit(resource.RLIMIT_AS, (6 << 30, 6 << 30))
@@ -232,7 +234,8 @@ def main(argv=None):
             print(f"VIOLATION property={prop} replay={path}")
             print("   cfg:", json.dumps(rec["cfg"]), "label:", rec["cex"].get("label"), "detail:", rec["cex"].get("detail"))
             print("   inputs:", json.dumps(rec["cex"].get("inputs"), default=str)[:600])
-            print("   replay:", out.strip().splitlines()[-1] if out.strip() else "")
+            rl = [ln for ln in out.splitlines() if ln.startswith(("REPRODUCED", "NOT REPRODUCED"))]
+            print("   replay:", rl[-1] if rl else (out.strip().splitlines()[-1] if out.strip() else ""))
         return 1
     return 0
 
